@@ -21,6 +21,7 @@ ASSUMPTIONS = ["secondary oracle: models/C50_FilesystemLock.tla is checked by TL
 MIN = {"quick": {"evaluations": 1000, "nontrivial": 300, "outcomes": 3}}
 
 DEAD_PID = 999
+PARENT_PID = 50    # a parent that constructs the lock objects, forks the contenders and exits
 
 
 class FS:
@@ -35,7 +36,10 @@ class FS:
             self.links["L"] = str(DEAD_PID)
 
     def pid(self):
-        return 100 + self.s.me().idx
+        me = self.s.me()
+        if me is None:
+            return PARENT_PID      # code running before the processes were forked
+        return 100 + me.idx
 
     def symlink(self, value, name):
         self.s.point("symlink")
@@ -93,7 +97,7 @@ class _OSProxy:
         return getattr(self._real, n)
 
 
-def run_one(ch, nproc, rounds, stale, die):
+def run_one(ch, nproc, rounds, stale, die, prefork=False):
     from twisted.python import lockfile
     s = Sched(ch, max_steps=400)
     fs = FS(s, stale)
@@ -102,11 +106,15 @@ def run_one(ch, nproc, rounds, stale, die):
     lockfile.os = _OSProxy(saved["os"], fs)
     holders, bad, acquired = set(), [], []
 
+    # prefork: the FilesystemLock objects are constructed by a parent process that has exited by the
+    # time its children call lock() (daemonising); the lock must record the pid of the process that locks
+    pre = [[lockfile.FilesystemLock("L") for _ in range(rounds)] for _ in range(nproc)] if prefork else None
+
     def proc(i):
         def body():
             pid = 100 + i
             for r in range(rounds):
-                l = lockfile.FilesystemLock("L")
+                l = pre[i][r] if pre else lockfile.FilesystemLock("L")
                 try:
                     got = l.lock()
                 except OSError as e:
@@ -165,10 +173,12 @@ def run_one(ch, nproc, rounds, stale, die):
     return out, fs.oplog, collided, s.steps, len(acquired)
 
 
-# (nproc, rounds, stale, die, preemption bound or None = all interleavings)
-CONFIGS_Q = [(2, 1, False, False, None), (2, 1, True, False, None), (2, 2, False, False, 3), (2, 2, True, False, 2)]
+# (nproc, rounds, stale, die, preemption bound or None = all interleavings[, lock objects constructed by an exited parent])
+CONFIGS_Q = [(2, 1, False, False, None), (2, 1, True, False, None), (2, 2, False, False, 3), (2, 2, True, False, 2),
+             (2, 1, False, False, None, True)]
 CONFIGS_T = [(2, 1, False, False, None), (2, 1, True, False, None), (2, 2, False, False, None), (2, 2, True, False, 4),
-             (3, 1, False, False, 3), (3, 1, True, False, 3), (2, 2, False, True, 4), (2, 2, True, True, 3)]
+             (3, 1, False, False, 3), (3, 1, True, False, 3), (2, 2, False, True, 4), (2, 2, True, True, 3),
+             (2, 1, False, False, None, True), (2, 2, False, False, 3, True)]
 
 
 def shards(tier, seed):
@@ -176,7 +186,7 @@ def shards(tier, seed):
     out = []
     for cfg in (CONFIGS_Q if tier == "quick" else CONFIGS_T):
         bound = cfg[4]
-        for pre, dev in shard_prefixes(lambda c: run_one(c, *cfg[:4]), 5, bound):
+        for pre, dev in shard_prefixes(lambda c: run_one(c, *cfg[:4], prefork=len(cfg) > 5 and cfg[5]), 5, bound):
             out.append((cfg, pre, dev))
     # TLA+ cross-model (models/C50_FilesystemLock.tla): all model traces vs all implementation traces
     out.append(("tla", False))
@@ -214,7 +224,7 @@ def run_shard(shard, tier, seed):
     bound = cfg[4]
     st = Stats()
     seen_sig = {}
-    for ch, (bad, oplog, collided, steps, nacq) in explore(lambda c: run_one(c, *cfg[:4]), bound, prefix=pre, prefix_dev=dev):
+    for ch, (bad, oplog, collided, steps, nacq) in explore(lambda c: run_one(c, *cfg[:4], prefork=len(cfg) > 5 and cfg[5]), bound, prefix=pre, prefix_dev=dev):
         st.evaluations += 1
         st.states += steps
         st.transitions += steps
@@ -237,5 +247,5 @@ def run_shard(shard, tier, seed):
 
 def replay(w):
     ch = Chooser(w["schedule"])
-    bad = run_one(ch, *w["config"][:4])[0]
+    bad = run_one(ch, *w["config"][:4], prefork=len(w["config"]) > 5 and w["config"][5])[0]
     return bad
